@@ -3,7 +3,7 @@
 EXTENDS Cli, TLC, Json
 VARIABLE inv
 Files == {"good", "missing", "badheader", "outofrange", "afterblank", "undeclared", "argafteratt", "wrongformat", "bincomment"}
-PClasses == {"valid", "nohyphen", "badquery", "badsem", "trailing", "trailinghyphen", "padded", "absent"}
+PClasses == {"valid", "nohyphen", "badquery", "badsem", "trailing", "trailinghyphen", "padded", "unicodefold", "absent"}
 ArgClasses == {"absent", "valid", "toobig", "zero", "negative", "nan"}
 Encs == {"unset", "aux_var", "exp", "hybrid", "invalid"}
 Space == [bin : {"crustabri", "iccma23"}, file : Files, fmt : {"iccma", "apx"}, pclass : PClasses, kind : Queries,
